@@ -101,6 +101,13 @@ def and_(w, a, b):
         return a & b
     if is_c(a):
         a, b = b, a
+    if isinstance(a, Lin):
+        if is_c(b) and (b & (b + 1)) == 0:          # mask 2^n - 1
+            n = b.bit_length()
+            if a.hi() <= b and a.lo() >= 0:
+                return a
+            return lin_divmod_pow2(a, n)[1]
+        raise NonLinear("and on Z-linear value")
     if is_aff(a):
         if is_c(b):
             return norm_aff(Aff([x if (b >> i) & 1 else 0 for i, x in enumerate(a.bits)]))
@@ -134,6 +141,14 @@ def or_(w, a, b):
         return a | b
     if is_c(a):
         a, b = b, a
+    if isinstance(a, Lin) or isinstance(b, Lin):
+        A, B = _lin_of(w, a, (a if isinstance(a, Lin) else b).ctx), _lin_of(w, b, (a if isinstance(a, Lin) else b).ctx)
+        for X, Y in ((A, B), (B, A)):
+            # X multiple of 2^n and 0 <= Y < 2^n  =>  X | Y == X + Y
+            n = max(Y.hi(), 0).bit_length()
+            if Y.lo() >= 0 and all(c % (1 << n) == 0 for c in X.coef.values()) and X.const % (1 << n) == 0:
+                return lin_add(w, X, Y, 1)
+        raise NonLinear("or of overlapping Z-linear values")
     if is_aff(a) or is_aff(b):
         A, B = aff_of(w, a), aff_of(w, b)
         bits = []
@@ -181,6 +196,8 @@ def _noaff(*xs):
 def add(w, a, b):
     if is_c(a) and is_c(b):
         return (a + b) & mask(w)
+    if isinstance(a, Lin) or isinstance(b, Lin):
+        return lin_add(w, a, b, 1)
     _noaff(a, b)
     if is_c(b) and b == 0:
         return a
@@ -192,6 +209,8 @@ def add(w, a, b):
 def sub(w, a, b):
     if is_c(a) and is_c(b):
         return (a - b) & mask(w)
+    if isinstance(a, Lin) or isinstance(b, Lin):
+        return lin_add(w, a, b, -1)
     _noaff(a, b)
     if is_c(b) and b == 0:
         return a
@@ -201,6 +220,12 @@ def sub(w, a, b):
 def mul(w, a, b):
     if is_c(a) and is_c(b):
         return (a * b) & mask(w)
+    if isinstance(a, Lin) and is_c(b):
+        return lin_mulc(w, a, b)
+    if isinstance(b, Lin) and is_c(a):
+        return lin_mulc(w, b, a)
+    if isinstance(a, Lin) or isinstance(b, Lin):
+        raise NonLinear("product of two symbolic Z-linear values")
     _noaff(a, b)
     return z(w, a) * z(w, b)
 
@@ -211,6 +236,8 @@ def neg(w, a):
 
 def shl(w, a, n):
     """n concrete"""
+    if isinstance(a, Lin):
+        return lin_mulc(w, a, 1 << n)
     if n >= w:
         return 0
     if n == 0:
@@ -223,6 +250,8 @@ def shl(w, a, n):
 
 
 def lshr(w, a, n):
+    if isinstance(a, Lin):
+        return lin_divmod_pow2(a, n)[0]
     if n >= w:
         return 0
     if n == 0:
@@ -268,6 +297,21 @@ def extract(x, hi, lo, w=None):
     n = hi - lo + 1
     if is_c(x):
         return (x >> lo) & mask(n)
+    if isinstance(x, Lin):
+        if lo == 0 and hi == x.w - 1:
+            return x
+        if lo == 0 and x.lo() >= 0 and x.hi() < (1 << n):
+            return Lin(n, x.coef, x.const, x.ctx, x.tainted)
+        if lo == 0:
+            try:
+                r = lin_divmod_pow2(x, n)[1]
+                return Lin(n, r.coef, r.const, x.ctx, x.tainted)
+            except NonLinear:
+                # the exact value may not fit: the machine value is the exact one mod 2^n, which this domain
+                # cannot express -> record as an overflow suspect and continue tainted
+                x.ctx.suspects.append(("truncation to %d bits" % n, x))
+                return Lin(n, x.coef, x.const, x.ctx, True)
+        raise NonLinear("extract [%d:%d] of Z-linear value" % (hi, lo))
     if is_aff(x):
         return norm_aff(Aff(x.bits[lo:hi + 1]))
     if lo == 0 and hi == x.size() - 1:
@@ -296,6 +340,9 @@ def zext(wf, wt, x):
         return x
     if is_c(x):
         return x & mask(wf)
+    if isinstance(x, Lin):
+        x.fit("zero-extension %d->%d" % (wf, wt))
+        return Lin(wt, x.coef, x.const, x.ctx, x.tainted)
     if is_aff(x):
         return Aff(x.bits + [0] * (wt - wf))
     return z3.ZeroExt(wt - wf, x)
@@ -327,6 +374,10 @@ def split_bytes(w, x):
     n = w // 8
     if is_c(x):
         return [(x >> (8 * i)) & 0xFF for i in range(n)]
+    if isinstance(x, Lin):
+        if x.lo() >= 0 and x.hi() < 256:
+            return [Lin(8, x.coef, x.const, x.ctx, x.tainted)] + [0] * (n - 1)
+        return [LinPart(x, i) for i in range(n)]
     if is_aff(x):
         return [norm_aff(Aff(x.bits[8 * i:8 * i + 8])) for i in range(n)]
     if z3.is_app_of(x, z3.Z3_OP_CONCAT):
@@ -354,6 +405,27 @@ def _cval(p):
 
 def join_bytes(bs):
     """little-endian byte list -> value of width 8*len"""
+    if any(isinstance(b, (Lin, LinPart)) for b in bs):
+        w = 8 * len(bs)
+        if isinstance(bs[0], LinPart):
+            p = bs[0].parent
+            k = p.w // 8
+            if all(isinstance(b, LinPart) and b.parent is p and b.idx == i for i, b in enumerate(bs[:k])) and all(is_c(b) and b == 0 for b in bs[k:]):
+                return p if len(bs) == k else Lin(w, p.coef, p.const, p.ctx, p.tainted)
+            raise NonLinear("partial use of a Z-linear word")
+        ctx = next(b for b in bs if isinstance(b, Lin)).ctx
+        coef, const, taint = {}, 0, False
+        for i, b in enumerate(bs):
+            if isinstance(b, LinPart):
+                raise NonLinear("partial use of a Z-linear word")
+            if isinstance(b, Lin):
+                for v, c in b.coef.items():
+                    coef[v] = coef.get(v, 0) + (c << (8 * i))
+                const += b.const << (8 * i)
+                taint |= b.tainted
+            else:
+                const += (b & 0xFF) << (8 * i)
+        return Lin(w, coef, const, ctx, taint)
     if all(is_c(b) for b in bs):
         r = 0
         for i, b in enumerate(bs):
@@ -473,6 +545,8 @@ def mux16(tbl, idx, cache=None):
     """PSHUFB per-byte semantics: idx bit7 -> 0 else tbl[idx & 15]; tbl = 16 byte values."""
     if is_c(idx):
         return 0 if idx & 0x80 else tbl[idx & 15]
+    if isinstance(idx, (Lin, LinPart)):
+        raise NonLinear("pshufb with Z-linear control")
     if is_aff(idx):
         if idx.is_const():
             return mux16(tbl, idx.const_value())
@@ -540,3 +614,105 @@ def clmul64(a, b):
     for j in range(64):
         r = r ^ z3.If(z3.Extract(j, j, b) == 1, a128 << j, z3.BitVecVal(0, 128))
     return r
+
+
+# ==================================================================== Z-linear domain (Adler-32 kernels)
+class LinCtx:
+    """Variable bounds, modulo definitions and overflow suspects for the Z-linear domain."""
+
+    def __init__(self):
+        self.bounds = {}     # var -> (lo, hi)
+        self.mods = {}       # var -> (form dict, const, modulus): var == form mod modulus, 0 <= var < modulus
+        self.suspects = []   # (description, Lin) whose exact value may leave [0, 2^w)
+        self.n = 0
+
+    def var(self, name, lo, hi):
+        self.bounds[name] = (lo, hi)
+        return name
+
+    def fresh(self, prefix, lo, hi):
+        self.n += 1
+        return self.var("%s%d" % (prefix, self.n), lo, hi)
+
+
+class Lin:
+    """exact integer linear form  const + sum coef[v]*v  standing for a w-bit machine value; `tainted` when the
+    exact value may have left [0, 2^w) somewhere on the way (wrap-around not modelled)"""
+    __slots__ = ("w", "coef", "const", "ctx", "tainted")
+
+    def __init__(self, w, coef, const, ctx, tainted=False):
+        self.w, self.coef, self.const, self.ctx, self.tainted = w, {k: v for k, v in coef.items() if v}, const, ctx, tainted
+
+    def hi(self):
+        return self.const + sum(c * (self.ctx.bounds[v][1] if c > 0 else self.ctx.bounds[v][0]) for v, c in self.coef.items())
+
+    def lo(self):
+        return self.const + sum(c * (self.ctx.bounds[v][0] if c > 0 else self.ctx.bounds[v][1]) for v, c in self.coef.items())
+
+    def fit(self, what):
+        if self.lo() < 0 or self.hi() >= (1 << self.w):
+            self.tainted = True
+            self.ctx.suspects.append((what, self))
+        return self
+
+    def __repr__(self):
+        return "Lin%d(%s + %d%s)" % (self.w, dict(list(self.coef.items())[:4]), self.const, " TAINTED" if self.tainted else "")
+
+
+class LinPart:
+    __slots__ = ("parent", "idx")
+
+    def __init__(self, parent, idx):
+        self.parent, self.idx = parent, idx
+
+
+def is_lin(x):
+    return isinstance(x, Lin)
+
+
+def is_opaque(x):
+    return isinstance(x, (Aff, Lin))
+
+
+def _lin_of(w, x, ctx):
+    if isinstance(x, Lin):
+        return x
+    if isinstance(x, int):
+        return Lin(w, {}, x, ctx)
+    raise Unsupported_("mixing Z-linear value with %r" % type(x))
+
+
+class Unsupported_(Exception):
+    pass
+
+
+def lin_add(w, a, b, sign=1):
+    ctx = a.ctx if isinstance(a, Lin) else b.ctx
+    A, B = _lin_of(w, a, ctx), _lin_of(w, b, ctx)
+    coef = dict(A.coef)
+    for v, c in B.coef.items():
+        coef[v] = coef.get(v, 0) + sign * c
+    # ring arithmetic: intermediate wrap-around mod 2^w is harmless; ranges are checked where a value is
+    # *interpreted* (dividend of div, bit-field split, widening)
+    return Lin(w, coef, A.const + sign * B.const, ctx, A.tainted or B.tainted)
+
+
+def lin_mulc(w, a, c):
+    return Lin(w, {v: k * c for v, k in a.coef.items()}, a.const * c, a.ctx, a.tainted)
+
+
+def lin_divmod_pow2(a, n):
+    """(a >> n, a & (2^n-1)) when the terms split cleanly"""
+    q, r = {}, {}
+    for v, c in a.coef.items():
+        if c % (1 << n) == 0:
+            q[v] = c >> n
+        else:
+            r[v] = c
+    qc, rc = a.const >> n, a.const & ((1 << n) - 1)
+    R = Lin(a.w, r, rc, a.ctx, a.tainted)
+    if R.lo() < 0 or R.hi() >= (1 << n):
+        raise NonLinear("Z-linear value cannot be split at bit %d" % n)
+    a.fit("bit-field split")
+    Q = Lin(a.w, q, qc, a.ctx, a.tainted)
+    return Q, R
